@@ -793,6 +793,11 @@ func (p *parser) parseHashLiteral() ast.Expression {
 	for !p.peekTokenIs(token.RBRACE) {
 		p.nextToken()
 		key := p.parseExpression(LOWEST)
+		if key == nil {
+			msg := fmt.Sprintf("line %d: syntax error: invalid hash key, got %s", p.curToken.LineNumber, p.curToken.Literal)
+			p.errors = append(p.errors, msg)
+			return nil
+		}
 
 		if !p.expectPeek(token.COLON) {
 			return nil
